@@ -1090,12 +1090,14 @@ def check(run):
     mcw = mc_worlds() + (mc_worlds_more() if thorough else [])
     pm = progs_module(mcw)
     small_ops = ["render", "invbody", "invdef", "invclosure", "toggle"]
-    d_main = 7 if thorough else 5
-    d_all = 4 if thorough else 3
+    d_main = 6 if thorough else 5
+    d_all = 3
     acts = {}
     # vacuity: TLC's coverage statistics on a one-template world in which every action is enabled (their cost grows with
     # the size of the worlds literal: 20 s on the worlds below, so the big runs go without)
-    if thorough:       # (in the quick tier vacuity is judged from the operations of the replayed behaviours, see op_counts below)
+    # (vacuity is judged from the operations of the replayed behaviours, see op_counts below; TLC's own coverage run on a
+    # one-template world ran out of a 3 GB heap once the worlds carried option and signature dimensions, so it is optional)
+    if thorough and os.environ.get("VERIF_C17_COVER"):
         res = _tlc(run, "MC_Cache", cfg(DEVS, ALL_OPS, WEAK, 2), name="mc-cover", coverage=True, timeout=600,
                       extra_files={"CacheProgs.tla": progs_module([mcw[1]])}, workers=4)
         if res.violated:
@@ -1174,7 +1176,7 @@ def check(run):
     # ------------------------------------------------------------------ 3. R: simulate -> replay on real templates
     profiles = [("rec", 14, 10), ("beaker-mem", 8, 6), ("beaker-file", 4, 4), ("beaker-dbm", 3, 3), ("dogpile", 6, 5)]   # profile, worlds, behaviours per world
     if thorough:
-        profiles = [(p, n * 6, b * 2) for p, n, b in profiles]
+        profiles = [(p, n * 4, b * 2) for p, n, b in profiles]
     missing = sorted({p for p, _, _ in profiles if not installed(p)})
     if missing:
         run.assumptions.append("backends not installed, not exercised: %s" % ", ".join(missing))
@@ -1247,7 +1249,7 @@ def check(run):
     # ------------------------------------------------------------------ 4. V: record -> validate
     groups = [("rec", 60, 30), ("beaker-mem", 20, 30), ("dogpile", 10, 30)]
     if thorough:
-        groups = [("rec", 800, 30), ("beaker-mem", 200, 30), ("beaker-file", 60, 30), ("beaker-dbm", 40, 30), ("dogpile", 120, 30)]
+        groups = [("rec", 400, 30), ("beaker-mem", 120, 30), ("beaker-file", 40, 30), ("beaker-dbm", 30, 30), ("dogpile", 80, 30)]
     groups = [g for g in groups if g[0] not in missing]
     tid = 0
     for gi, (profile, n, n_ops) in enumerate(groups):
@@ -1266,37 +1268,47 @@ def check(run):
                 ev, tx = [], []
             texts[tid] = tx
             traces.append({"id": tid, "pg": len(worlds), "events": ev})
-        ncs = []
+        # negative controls: corruptions of up to 6 recordings; judged are those of the first recording that Trace_Cache
+        # accepted uncorrupted.  Only fields the spec compares are touched: never raised / watchdog events (their effects
+        # are not compared), and an event is only deleted when a later compared event reports the counters it changed.
+        cand = []
         for t in traces:
-            rs = [i for i, e in enumerate(t["events"]) if e["ev"] == "render" and not e.get("raised") and e["out"] and e["out"][-1][0] not in "{}<>"]
-            cs = [i for i, e in enumerate(t["events"]) if e["calls"] and e["calls"][0]["kw"] and not e.get("raised")]
-            if len(rs) >= 2 and cs:
-                b1 = copy.deepcopy(t); b1["id"] = 10 ** 6 + 1
-                b1["events"][rs[-1]]["out"][-1][1] += 1
-                b2 = copy.deepcopy(t); b2["id"] = 10 ** 6 + 2
-                b2["events"][rs[-1]]["execs"][0][0] += 1
-                b3 = copy.deepcopy(t); b3["id"] = 10 ** 6 + 3
-                b3["events"][cs[-1]]["calls"][0]["kw"][0][1] = "s:corrupted"
-                ncs = [b1, b2, b3]
-                # deleting a render that executed something is a corruption as soon as a later render reports the counters
-                prev, victim = None, None
-                allr = [i for i, e in enumerate(t["events"]) if e["ev"] == "render"]
-                for i in allr:
-                    ex = t["events"][i]["execs"]
-                    changed = any(n for row in ex for n in row) if prev is None else ex != prev
-                    if changed and i != allr[-1]:
-                        victim = i
-                        break
-                    prev = ex
-                if victim is not None:
-                    b4 = copy.deepcopy(t); b4["id"] = 10 ** 6 + 4
-                    del b4["events"][victim]
-                    ncs.append(b4)
+            ev = t["events"]
+            if any(e.get("raised") or str(e.get("out", [[""]])[0][0] if e.get("out") else "").startswith("exc:") for e in ev):
+                continue
+            rs = [i for i, e in enumerate(ev) if e["ev"] == "render" and e["out"] and e["out"][-1][0] not in "{}<>"]
+            cs = [i for i, e in enumerate(ev) if e["calls"] and e["calls"][0]["kw"] and not e["calls"][0]["op"].startswith("exc:")]
+            if len(rs) < 2 or not cs:
+                continue
+            base = 10 ** 6 + 10 * len(cand)
+            b1 = copy.deepcopy(t); b1["id"] = base + 1
+            b1["events"][rs[-1]]["out"][-1][1] += 1
+            b2 = copy.deepcopy(t); b2["id"] = base + 2
+            b2["events"][rs[-1]]["execs"][0][0] += 1
+            b3 = copy.deepcopy(t); b3["id"] = base + 3
+            b3["events"][cs[-1]]["calls"][0]["kw"][0][1] = "s:corrupted"
+            mine = [b1, b2, b3]
+            withex = [i for i, e in enumerate(ev) if e["ev"] in ("render", "renderdef")]      # events reporting the counters
+            prev = None
+            for k, i in enumerate(withex):
+                ex = ev[i]["execs"]
+                changed = any(n for row in ex for n in row) if prev is None else ex != prev
+                if changed and k < len(withex) - 1:
+                    b4 = copy.deepcopy(t); b4["id"] = base + 4
+                    del b4["events"][i]
+                    mine.append(b4)
+                    break
+                prev = ex
+            cand.append((t["id"], mine))
+            if len(cand) >= 6:
                 break
+        ncs = [x for _, mine in cand for x in mine]
         verdicts = _validate(run, traces + ncs, worlds, "trace-%s" % profile, thorough)
         run.traces -= len(ncs)
-        for nc in ncs:
+        judged = next((mine for tid_, mine in cand if verdicts[tid_]["ok"]), [])
+        for nc in judged:
             run.negative_control(not verdicts[nc["id"]]["ok"], "Trace_Cache accepted a corrupted history (%d)" % nc["id"])
+        ncs = judged
         if not ncs and gi == 0 and not run.violations:
             raise MachineryError("no trace suitable for negative controls")
         for t in traces:
